@@ -127,6 +127,130 @@ type Ctx struct {
 	Prog *load.Program
 	Pkg  *packages.Package
 	Info *types.Info
+	// Subst maps single-assignment locals of the body being analysed to their (pure) defining
+	// expressions: hoisted sub-expressions and aliases are seen through.
+	Subst map[types.Object]ast.Expr
+	// CondLocals: locals holding a conditional constant (see ComputeCondLocals).
+	CondLocals map[types.Object]string
+}
+
+// ComputeSubst finds the locals of body that are defined exactly once by `x := e` (or a tuple
+// define of equal arity), never written again, and whose e is pure: no calls other than
+// conversions, len/cap and position/validity accessors, and no read of mutable receiver state
+// (fields named in mutable). It replaces c.Subst.
+func (c *Ctx) ComputeSubst(body []ast.Stmt, mutable map[string]bool) {
+	defs := map[types.Object]ast.Expr{}
+	writes := map[types.Object]int{}
+	note := func(id *ast.Ident) types.Object {
+		if o := c.Info.Defs[id]; o != nil {
+			return o
+		}
+		return c.Info.Uses[id]
+	}
+	for _, st := range body {
+		ast.Inspect(st, func(n ast.Node) bool {
+			switch s := n.(type) {
+			case *ast.AssignStmt:
+				for i, l := range s.Lhs {
+					id, ok := l.(*ast.Ident)
+					if !ok || id.Name == "_" {
+						continue
+					}
+					o := note(id)
+					if o == nil {
+						continue
+					}
+					writes[o]++
+					if s.Tok == token.DEFINE && len(s.Lhs) == len(s.Rhs) {
+						defs[o] = s.Rhs[i]
+					}
+				}
+			case *ast.IncDecStmt:
+				if id, ok := s.X.(*ast.Ident); ok {
+					if o := note(id); o != nil {
+						writes[o] += 2
+					}
+				}
+			case *ast.UnaryExpr:
+				if s.Op == token.AND {
+					if id, ok := s.X.(*ast.Ident); ok {
+						if o := note(id); o != nil {
+							writes[o] += 2 // address taken: may be written through the pointer
+						}
+					}
+				}
+			case *ast.RangeStmt:
+				for _, kv := range []ast.Expr{s.Key, s.Value} {
+					if id, ok := kv.(*ast.Ident); ok {
+						if o := note(id); o != nil {
+							writes[o] += 2
+						}
+					}
+				}
+			case *ast.TypeSwitchStmt:
+				return true
+			}
+			return true
+		})
+	}
+	c.Subst = map[types.Object]ast.Expr{}
+	for o, e := range defs {
+		if writes[o] != 1 || !c.pureExpr(e, mutable) {
+			continue
+		}
+		// allocations and composite literals are identities, not values: never inline
+		if u, ok := e.(*ast.UnaryExpr); ok && u.Op == token.AND {
+			if _, isLit := u.X.(*ast.CompositeLit); isLit {
+				continue
+			}
+		}
+		if _, isLit := e.(*ast.CompositeLit); isLit {
+			continue
+		}
+		if _, isFn := e.(*ast.FuncLit); isFn {
+			continue
+		}
+		c.Subst[o] = e
+	}
+}
+
+func (c *Ctx) pureExpr(e ast.Expr, mutable map[string]bool) bool {
+	ok := true
+	ast.Inspect(e, func(n ast.Node) bool {
+		switch x := n.(type) {
+		case *ast.CallExpr:
+			if tv, found := c.Info.Types[x.Fun]; found && tv.IsType() {
+				return true
+			}
+			if id, isID := x.Fun.(*ast.Ident); isID {
+				if _, isB := c.Info.Uses[id].(*types.Builtin); isB && (id.Name == "len" || id.Name == "cap") {
+					return true
+				}
+			}
+			if se, isSel := x.Fun.(*ast.SelectorExpr); isSel && len(x.Args) == 0 {
+				switch se.Sel.Name {
+				case "Pos", "End", "IsValid", "String":
+					return true
+				}
+			}
+			ok = false
+		case *ast.SelectorExpr:
+			if mutable[x.Sel.Name] {
+				if v, isVar := c.Info.Uses[x.Sel].(*types.Var); isVar && v.IsField() {
+					ok = false
+				}
+			}
+		case *ast.FuncLit:
+			ok = false
+		case *ast.IndexExpr:
+			// map/slice reads of receiver state are not pure across statements
+			if _, isMap := c.Info.TypeOf(x.X).Underlying().(*types.Map); isMap {
+				ok = false
+			}
+		}
+		return true
+	})
+	return ok
 }
 
 // ---------------------------------------------------------------------------------------------
@@ -148,19 +272,45 @@ func (c *Ctx) ExprStr(e ast.Expr) string {
 		p := pn.Imported().Path()
 		return p == "go/ast" || p == load.PkgDst
 	}
+	substHook = nil
+	if len(c.Subst) > 0 {
+		depth := 0
+		substHook = func(id *ast.Ident) ast.Expr {
+			if depth > 6 {
+				return nil
+			}
+			if ex, ok := c.Subst[c.Info.Uses[id]]; ok {
+				depth++
+				return ex
+			}
+			return nil
+		}
+	}
 	cp := deepCopy(e)
+	substHook = nil
 	var buf bytes.Buffer
 	printer.Fprint(&buf, token.NewFileSet(), cp)
 	return strings.TrimSpace(wsRe.ReplaceAllString(buf.String(), " "))
 }
 
 var erase func(id *ast.Ident) bool
+var substHook func(id *ast.Ident) ast.Expr
 
 func deepCopy(n ast.Node) ast.Node {
 	switch n := n.(type) {
 	case nil:
 		return nil
 	case *ast.Ident:
+		if substHook != nil {
+			if ex := substHook(n); ex != nil {
+				cp := deepCopy(ex).(ast.Expr)
+				switch cp.(type) {
+				case *ast.BinaryExpr, *ast.UnaryExpr:
+					return &ast.ParenExpr{X: cp}
+				}
+				return cp
+			}
+		}
 		return &ast.Ident{Name: n.Name}
 	case *ast.BasicLit:
 		return &ast.BasicLit{Kind: n.Kind, Value: n.Value}
@@ -183,9 +333,25 @@ func deepCopy(n ast.Node) ast.Node {
 	case *ast.UnaryExpr:
 		return &ast.UnaryExpr{Op: n.Op, X: deepCopy(n.X).(ast.Expr)}
 	case *ast.ParenExpr:
-		return &ast.ParenExpr{X: deepCopy(n.X).(ast.Expr)}
+		inner := deepCopy(n.X).(ast.Expr)
+		switch inner.(type) {
+		case *ast.Ident, *ast.SelectorExpr, *ast.IndexExpr, *ast.CallExpr, *ast.ParenExpr, *ast.BasicLit:
+			return inner // redundant parentheses
+		}
+		return &ast.ParenExpr{X: inner}
 	case *ast.StarExpr:
-		return &ast.StarExpr{X: deepCopy(n.X).(ast.Expr)}
+		inner := deepCopy(n.X).(ast.Expr)
+		for {
+			p, ok := inner.(*ast.ParenExpr)
+			if !ok {
+				break
+			}
+			inner = p.X
+		}
+		if u, ok := inner.(*ast.UnaryExpr); ok && u.Op == token.AND {
+			return u.X // *&x is x
+		}
+		return &ast.StarExpr{X: inner}
 	case *ast.IndexExpr:
 		return &ast.IndexExpr{X: deepCopy(n.X).(ast.Expr), Index: deepCopy(n.Index).(ast.Expr)}
 	case *ast.TypeAssertExpr:
@@ -342,6 +508,165 @@ func deepCopy(n ast.Node) ast.Node {
 	}
 }
 
+// TokenStr renders a token expression; the conditional forms — an immediately invoked
+// `func() token.Token { if C { return A }; return B }()` or a local that is initialised to B and
+// reassigned to A under C — are rendered canonically as `cond(C ? A : B)`.
+func (c *Ctx) TokenStr(e ast.Expr) string {
+	if call, ok := e.(*ast.CallExpr); ok && len(call.Args) == 0 {
+		if fl, ok := call.Fun.(*ast.FuncLit); ok && len(fl.Body.List) == 2 {
+			is, ok1 := fl.Body.List[0].(*ast.IfStmt)
+			last, ok2 := fl.Body.List[1].(*ast.ReturnStmt)
+			if ok1 && ok2 && is.Init == nil && is.Else == nil && len(is.Body.List) == 1 && len(last.Results) == 1 {
+				if r, ok := is.Body.List[0].(*ast.ReturnStmt); ok && len(r.Results) == 1 {
+					return "cond(" + c.ExprStr(is.Cond) + " ? " + c.ExprStr(r.Results[0]) + " : " + c.ExprStr(last.Results[0]) + ")"
+				}
+			}
+		}
+	}
+	if id, ok := e.(*ast.Ident); ok {
+		if s, ok := c.CondLocals[c.Info.Uses[id]]; ok {
+			return s
+		}
+	}
+	return c.ExprStr(e)
+}
+
+// ComputeCondLocals finds locals of body of the shape `x := B` (or var x = B) followed by exactly
+// one conditional reassignment `if C { x = A }` at the same level, and records their canonical
+// conditional value.
+func (c *Ctx) ComputeCondLocals(body []ast.Stmt) {
+	c.CondLocals = map[types.Object]string{}
+	init := map[types.Object]ast.Expr{}
+	for i, st := range body {
+		switch s := st.(type) {
+		case *ast.AssignStmt:
+			if s.Tok == token.DEFINE && len(s.Lhs) == 1 && len(s.Rhs) == 1 {
+				if id, ok := s.Lhs[0].(*ast.Ident); ok {
+					init[c.Info.Defs[id]] = s.Rhs[0]
+				}
+			}
+		case *ast.DeclStmt:
+			if gd, ok := s.Decl.(*ast.GenDecl); ok && gd.Tok == token.VAR {
+				for _, sp := range gd.Specs {
+					vs := sp.(*ast.ValueSpec)
+					for j, nm := range vs.Names {
+						if j < len(vs.Values) {
+							init[c.Info.Defs[nm]] = vs.Values[j]
+						}
+					}
+				}
+			}
+		case *ast.IfStmt:
+			if s.Init != nil || len(s.Body.List) != 1 {
+				continue
+			}
+			as, ok := s.Body.List[0].(*ast.AssignStmt)
+			if !ok || as.Tok != token.ASSIGN || len(as.Lhs) != 1 || len(as.Rhs) != 1 {
+				continue
+			}
+			id, ok := as.Lhs[0].(*ast.Ident)
+			if !ok {
+				continue
+			}
+			obj := c.Info.Uses[id]
+			b, has := init[obj]
+			if !has {
+				continue
+			}
+			other := b
+			if el, ok := s.Else.(*ast.BlockStmt); ok && len(el.List) == 1 {
+				if eas, ok := el.List[0].(*ast.AssignStmt); ok && len(eas.Lhs) == 1 && len(eas.Rhs) == 1 {
+					if eid, ok := eas.Lhs[0].(*ast.Ident); ok && c.Info.Uses[eid] == obj {
+						other = eas.Rhs[0]
+					}
+				}
+			} else if s.Else != nil {
+				continue
+			}
+			// no other write to obj in the rest of the body
+			writes := 0
+			for _, rest := range body[i+1:] {
+				ast.Inspect(rest, func(n ast.Node) bool {
+					if a2, ok := n.(*ast.AssignStmt); ok {
+						for _, l := range a2.Lhs {
+							if lid, ok := l.(*ast.Ident); ok && c.Info.Uses[lid] == obj {
+								writes++
+							}
+						}
+					}
+					return true
+				})
+			}
+			if writes == 0 {
+				c.CondLocals[obj] = "cond(" + c.ExprStr(s.Cond) + " ? " + c.ExprStr(as.Rhs[0]) + " : " + c.ExprStr(other) + ")"
+			}
+		}
+	}
+}
+
+// ExpandCall: when stmts is a single call statement to a function or method declared in the same
+// package (small body, no result values), it returns the callee's body and installs its
+// parameters in c.Subst as aliases of the arguments (and the receiver, for methods); undo removes
+// them again. Otherwise it returns stmts unchanged.
+func (c *Ctx) ExpandCall(stmts []ast.Stmt) (body []ast.Stmt, undo func()) {
+	undo = func() {}
+	if len(stmts) != 1 {
+		return stmts, undo
+	}
+	es, ok := stmts[0].(*ast.ExprStmt)
+	if !ok {
+		return stmts, undo
+	}
+	call, ok := es.X.(*ast.CallExpr)
+	if !ok {
+		return stmts, undo
+	}
+	fn := c.Callee(call)
+	if fn == nil || fn.Pkg() == nil || fn.Pkg() != c.Pkg.Types {
+		return stmts, undo
+	}
+	var decl *ast.FuncDecl
+	for _, f := range load.AllFuncDecls(c.Pkg) {
+		if c.Info.Defs[f.Name] == types.Object(fn) {
+			decl = f
+		}
+	}
+	if decl == nil || decl.Body == nil || len(decl.Body.List) > 12 || (decl.Type.Results != nil && len(decl.Type.Results.List) > 0) {
+		return stmts, undo
+	}
+	var params []types.Object
+	for _, p := range decl.Type.Params.List {
+		for _, nm := range p.Names {
+			params = append(params, c.Info.Defs[nm])
+		}
+	}
+	if len(params) != len(call.Args) || call.Ellipsis.IsValid() {
+		return stmts, undo
+	}
+	if c.Subst == nil {
+		c.Subst = map[types.Object]ast.Expr{}
+	}
+	var added []types.Object
+	for i, p := range params {
+		if p != nil {
+			c.Subst[p] = call.Args[i]
+			added = append(added, p)
+		}
+	}
+	if decl.Recv != nil && len(decl.Recv.List) == 1 && len(decl.Recv.List[0].Names) == 1 {
+		if se, ok := call.Fun.(*ast.SelectorExpr); ok {
+			r := c.Info.Defs[decl.Recv.List[0].Names[0]]
+			c.Subst[r] = se.X
+			added = append(added, r)
+		}
+	}
+	return decl.Body.List, func() {
+		for _, p := range added {
+			delete(c.Subst, p)
+		}
+	}
+}
+
 // ObjOf returns the object an identifier uses or defines.
 func (c *Ctx) ObjOf(id *ast.Ident) types.Object {
 	if o := c.Info.Uses[id]; o != nil {
@@ -357,6 +682,7 @@ func (c *Ctx) Path(e ast.Expr, root types.Object) (string, bool) {
 		return "", false
 	}
 	var parts []string
+	hops := 0
 	for {
 		switch x := e.(type) {
 		case *ast.ParenExpr:
@@ -366,9 +692,23 @@ func (c *Ctx) Path(e ast.Expr, root types.Object) (string, bool) {
 			parts = append([]string{x.Sel.Name}, parts...)
 			e = x.X
 			continue
+		case *ast.UnaryExpr:
+			if x.Op == token.AND {
+				e = x.X
+				continue
+			}
+			return "", false
+		case *ast.StarExpr:
+			e = x.X
+			continue
 		case *ast.Ident:
 			if c.ObjOf(x) == root {
 				return strings.Join(parts, "."), true
+			}
+			if ex, ok := c.Subst[c.Info.Uses[x]]; ok && hops < 6 {
+				hops++
+				e = ex
+				continue
 			}
 			return "", false
 		default:
@@ -551,9 +891,31 @@ type gctx struct {
 
 func (g gctx) with(cond string, els bool) gctx {
 	ng := gctx{loop: g.loop}
+	if els {
+		cond = NegGuard(cond)
+	}
 	ng.guards = append(append([]string{}, g.guards...), cond)
-	ng.els = els
 	return ng
+}
+
+// NegGuard negates a normalised condition, keeping it in a canonical spelling.
+func NegGuard(cond string) string {
+	cond = strings.TrimSpace(cond)
+	if strings.HasPrefix(cond, "!") && !strings.ContainsAny(cond[1:], " &|") {
+		return cond[1:]
+	}
+	if strings.HasPrefix(cond, "!(") && strings.HasSuffix(cond, ")") {
+		return cond[2 : len(cond)-1]
+	}
+	for _, p := range [][2]string{{" != ", " == "}, {" == ", " != "}} {
+		if strings.Count(cond, p[0]) == 1 && !strings.ContainsAny(cond, "&|") {
+			return strings.Replace(cond, p[0], p[1], 1)
+		}
+	}
+	if !strings.ContainsAny(cond, " ") {
+		return "!" + cond
+	}
+	return "!(" + cond + ")"
 }
 
 func (g gctx) apply(e *Event) {
